@@ -158,6 +158,17 @@ SUMSEL = z3.Function('SUMSEL', AI, AR, IntS, IntS, RealS)   # SUMSEL(L, w, k, j)
 CNTSEL = z3.Function('CNTSEL', AI, IntS, IntS, IntS)        # CNTSEL(L, k, j)    = number of t < k with L[t] = j
 t_, j_ = Int('t'), Int('j')
 
+SUMARR = z3.Function('SUMARR', AR, IntS, RealS)            # SUMARR(f, n) = f[0] + ... + f[n-1]
+PSUM = z3.Function('PSUM', AR, IntS, RealS)                # prefix sums: PSUM(w, k) = w[0] + ... + w[k-1]
+def total_axioms():
+    f, f2 = z3.Consts('f!t f2!t', AR); n, r, k = Int('n!t'), Int('r!t'), Int('k!t'); dl = z3.Real('d!t')
+    return [ForAll([f], PSUM(f, 0) == 0, patterns=[PSUM(f, 0)]),
+            ForAll([f, k], Implies(k >= 0, PSUM(f, k + 1) == PSUM(f, k) + f[k]), patterns=[PSUM(f, k + 1)]),
+            ForAll([f, n], Implies(ForAll([t_], Implies(And(0 <= t_, t_ < n), f[t_] == 0)), SUMARR(f, n) == 0), patterns=[SUMARR(f, n)]),
+            # a sum depends only on its first n entries; adding d to one entry adds d to the sum
+            ForAll([f, f2, n], Implies(ForAll([t_], Implies(And(0 <= t_, t_ < n), f[t_] == f2[t_])), SUMARR(f, n) == SUMARR(f2, n)), patterns=[z3.MultiPattern(SUMARR(f, n), SUMARR(f2, n))]),
+            ForAll([f, r, dl, n], Implies(And(0 <= r, r < n), SUMARR(z3.Lambda([t_], If(t_ == r, f[t_] + dl, f[t_])), n) == SUMARR(f, n) + dl), patterns=[SUMARR(z3.Lambda([t_], If(t_ == r, f[t_] + dl, f[t_])), n)])]
+
 def sel_axioms():
     L, L2 = z3.Consts('L!s L2!s', AI); w = z3.Const('w!s', AR); k, j = Int('k!s'), Int('j!s')
     return [ForAll([L, w, j], SUMSEL(L, w, 0, j) == 0, patterns=[SUMSEL(L, w, 0, j)]),
@@ -214,16 +225,32 @@ def u_assigner(weighted):
             return [('[C17]one-count-and-one-weight-per-grid-point', And(tz(npnt.shape[0]) == g, tz(gw.shape[0]) == g)),
                     ('[C17]labels-so-far', BoolVal(isinstance(Lst, list) and len(Lst) == 0 and z3.is_int_value(z3.simplify(tz(i))) and z3.simplify(tz(i)).as_long() == 0) if not is_sym(conc(i)) else BoolVal(False)),
                     ('[C17]grid-counts-are-the-numbers-of-assigned-descriptors', ForAll([j_], Implies(And(0 <= j_, j_ < g), npnt.elem(j_) == 0))),
-                    ('[C17]grid-weights-are-the-sums-of-the-assigned-descriptor-weights', ForAll([j_], Implies(And(0 <= j_, j_ < g), gw.elem(j_) == 0)))]
+                    ('[C17]grid-weights-are-the-sums-of-the-assigned-descriptor-weights', ForAll([j_], Implies(And(0 <= j_, j_ < g), gw.elem(j_) == 0))),
+                    ('[C17]grid-weights-total-the-weights-of-the-descriptors-seen', SUMARR(lam_real(gw), g) == 0)]
         LL, WW = lam_int(L), lam_real(W)
         return [('[C17]one-label-per-descriptor-seen', tz(L.shape[0]) == i),
                 ('[C17]one-count-and-one-weight-per-grid-point', And(tz(npnt.shape[0]) == g, tz(gw.shape[0]) == g)),
                 ('[C17]every-label-is-a-grid-point-nearest-to-its-descriptor', ForAll([t_, j_], Implies(And(0 <= t_, t_ < i, 0 <= j_, j_ < g), And(0 <= L.elem(t_), L.elem(t_) < g, DIST(t_, L.elem(t_)) <= DIST(t_, j_))), patterns=[z3.MultiPattern(L.elem(t_), DIST(t_, j_))])),
                 ('[C17]grid-counts-are-the-numbers-of-assigned-descriptors', ForAll([j_], Implies(And(0 <= j_, j_ < g), npnt.elem(j_) == CNTSEL(LL, i, j_)), patterns=[npnt.elem(j_)])),
-                ('[C17]grid-weights-are-the-sums-of-the-assigned-descriptor-weights', ForAll([j_], Implies(And(0 <= j_, j_ < g), gw.elem(j_) == SUMSEL(LL, WW, i, j_)), patterns=[gw.elem(j_)]))]
+                ('[C17]grid-weights-are-the-sums-of-the-assigned-descriptor-weights', ForAll([j_], Implies(And(0 <= j_, j_ < g), gw.elem(j_) == SUMSEL(LL, WW, i, j_)), patterns=[gw.elem(j_)])),
+                ('[C17]grid-weights-total-the-weights-of-the-descriptors-seen', _stash(I, i, gw, SUMARR(lam_real(gw), g) == PSUM(WW, i)))]
+    def _stash(I, i, gw, f):
+        I.cur.setdefault('gw_at', []).append((tz(i), gw)); return f
+    def hints(I, Fpre, Fpost, i, gpre, gpost):
+        c = I.cur; g = c['g']; o = I.O(Fpost['self'])
+        pre = [gwv for (ii, gwv) in c.get('gw_at', []) if z3.eq(ii, tz(i))]
+        if not pre: return []
+        gw0 = pre[-1]; gw1 = I.A(o.attrs['grid_weight']); L = I.A(o.attrs['labels_']); W = I.A(Fpost['sample_weight'])
+        r = L.elem(tz(i)); dl = to_real(W.elem(tz(i)))
+        canon = z3.Lambda([t_], If(t_ == r, lam_real(gw0)[t_] + dl, lam_real(gw0)[t_]))
+        # instances of the two SUMARR axioms (total_axioms) for these concrete term functions
+        I.assume(Implies(And(0 <= r, r < g), SUMARR(canon, g) == SUMARR(lam_real(gw0), g) + dl))
+        I.assume(Implies(ForAll([t_], Implies(And(0 <= t_, t_ < g), lam_real(gw1)[t_] == canon[t_])), SUMARR(lam_real(gw1), g) == SUMARR(canon, g)))
+        return [('updated-weights-are-the-old-ones-with-the-descriptor-weight-added-at-its-label', ForAll([t_], Implies(And(0 <= t_, t_ < g), lam_real(gw1)[t_] == canon[t_]))),
+                ('...so-their-total-grows-by-that-weight', SUMARR(lam_real(gw1), g) == SUMARR(lam_real(gw0), g) + dl)]
     def body(I):
         n, g, d = I.fresh('n', IntS), I.fresh('g', IntS), I.fresh('d', IntS); I.assume(And(n >= 1, g >= 1, d >= 1))
-        I.use_axioms('sel', sel_axioms())
+        I.use_axioms('sel', sel_axioms() + total_axioms())
         I.cur = dict(g=g, n=n)
         X = I.fresh_arr('descriptors', (n, d)); G = I.fresh_arr('grid', (g, d)); w = I.fresh_arr('w', (n,))
         Xf = I.A(X).tag[1] if I.A(X).tag and I.A(X).tag[0] == 'base' else None
@@ -251,7 +278,8 @@ def u_assigner(weighted):
             LL, WW = lam_int(L), lam_real(W)
             I.ob('post[C17]:grid-weights-are-the-sums-of-the-assigned-descriptor-weights', I.A(o.attrs['grid_weight']).elem(j) == SUMSEL(LL, WW, n, j), kind='post')
             I.ob('post[C17]:grid-counts-are-the-numbers-of-assigned-descriptors', I.A(o.attrs['grid_npoints']).elem(j) == CNTSEL(LL, n, j), kind='post')
-    return Unit(f'_NearestGridAssigner[{"weights" if weighted else "uniform"}]', body, loops={(q, 0): LoopContract(inv)}, functions=[NG + '.fit', NG + '.predict'])
+            I.ob('post[C17]:grid-weights-total-the-sum-of-the-descriptor-weights (one, for the normalised weights SparseKDE hands in)', SUMARR(lam_real(I.A(o.attrs['grid_weight'])), g) == PSUM(WW, n), kind='post')
+    return Unit(f'_NearestGridAssigner[{"weights" if weighted else "uniform"}]', body, loops={(q, 0): LoopContract(inv, hints=hints)}, functions=[NG + '.fit', NG + '.predict'])
 
 UNITS = [lambda: u_assigner(True), lambda: u_assigner(False), lambda: u_fit(True, True), lambda: u_fit(False, False), lambda: u_fit(False, True), lambda: u_score(), lambda: u_reject()]
 RT = True
